@@ -1,8 +1,6 @@
 package main
 
 import (
-	"fmt"
-	"os"
 	"go/constant"
 	"go/token"
 	"go/types"
@@ -65,6 +63,27 @@ func actionSetsCopiedFromTheirOwn(c *Ctx, rule string) {
 		return
 	}
 	loops := Loops(fn)
+	// a map made here and stored into one of the two fields later (a helper's result, once expanded) is that field's
+	madeFor := map[ssa.Value]string{}
+	for _, b := range fn.Blocks {
+		for _, in := range b.Instrs {
+			st, ok := in.(*ssa.Store)
+			if !ok {
+				continue
+			}
+			fa, ok := st.Addr.(*ssa.FieldAddr)
+			if !ok {
+				continue
+			}
+			if tn, f := fieldAddrName(fa); tn == "tq.Transfer" && (f == "Actions" || f == "Links") {
+				for _, l := range p.LeavesNoFields(st.Val, nil) {
+					if _, isMk := l.(*ssa.MakeMap); isMk {
+						madeFor[l] = f
+					}
+				}
+			}
+		}
+	}
 	n := 0
 	for _, b := range fn.Blocks {
 		for _, in := range b.Instrs {
@@ -73,6 +92,13 @@ func actionSetsCopiedFromTheirOwn(c *Ctx, rule string) {
 				continue
 			}
 			tn, f, _, isF := FieldOf(mu.Map)
+			if !isF {
+				for _, l := range p.LeavesNoFields(mu.Map, nil) {
+					if ff, ok := madeFor[l]; ok {
+						tn, f, isF = "tq.Transfer", ff, true
+					}
+				}
+			}
 			if !isF || tn != "tq.Transfer" || (f != "Actions" && f != "Links") {
 				continue
 			}
@@ -1280,9 +1306,6 @@ func insideWorkTreeNeedsSeparator(c *Ctx, rule string) {
 		}
 		return true
 	})
-	if os.Getenv("LFSCHECK_DEBUG_R7") != "" {
-		fmt.Fprintln(os.Stderr, "DEBUG work-tree:", bad, nRet, len(pass), len(chdirs))
-	}
 	c.Check(bad == "" && nonVacuous(pass) && len(chdirs) > 0, rule, "work-tree:chdir-skipped-only-inside", p.Pos(fn.Pos()), "the chdir into the work tree is skipped only from inside it",
 		"changeToWorkingCopy can stay in a directory that merely shares a string prefix with the work tree (e.g. /x/proj-tools for /x/proj): track and untrack then write a .gitattributes Git never reads and report success")
 }
